@@ -13,6 +13,7 @@ EXPLANATION = ('Decides structural necessary conditions of C05 on the built MIR:
 NOT_DECIDED = ['that the MILP solution respects the constraints (HiGHS is trusted)',
                'arithmetic of WorkerResources / time arithmetic',
                'global never-overbooked invariant over all histories (only the per-transition pairing is decided)']
+RELATED = {'C06': ['R06.2']}
 ASSUMPTIONS = ['per-connection FIFO between server and worker (mode "may" rows)']
 
 SOLVER = T + 'scheduler::solver::'
